@@ -81,6 +81,9 @@ def as_cmp(e):
     """(op, lhs, rhs) if e is a comparison (MIR BinaryOp or PartialEq/PartialOrd call), else None"""
     if not isinstance(e, tuple):
         return None
+    if e[0] == "not":
+        cm = as_cmp(e[1])
+        return (NEG[cm[0]], cm[1], cm[2]) if cm else None
     if e[0] == "bin" and e[1] in SWAP:
         return (e[1], e[2], e[3])
     if e[0] == "call":
@@ -605,6 +608,8 @@ def _sig(e, params_positional=True):
         return "fn:" + mir.short(e[1])
     if k == "static":
         return "static:" + e[1].split("::")[-1]
+    if k == "not":
+        return "!(%s)" % _sig(e[1])
     if k == "field":
         return "%s.%s" % (_sig(e[1]), e[2])
     if k == "vfield":
@@ -714,8 +719,48 @@ def canon_cmp(op, L, R):
     return "%s(%s, %s)" % (op, a, b)
 
 
-def cmp_atoms(body):
-    """every comparison expression evaluated in `body` (statements and calls): list of (expr, canon, bb)"""
+def cmp_atoms(body, complements=False):
+    """every comparison expression evaluated in `body` (statements and calls): list of (expr, canon, bb).
+    With `complements`, each comparison e also appears as ('not', e) under the canonical form of its negation (`a != b` is listed as
+    Ne(a, b) and, negated, as Eq(a, b); `a >= b` as Le(b, a) and, negated, as Lt(a, b)), so that a rule looking for the atom `x == K` finds it
+    however the source spells the test; forcing ('not', e) := v forces e := 1 − v (see `force`)."""
+    base = _cmp_atoms(body)
+    if not complements:
+        return base
+    out = list(base)
+    have = {c for e, c, bi in base}
+    for e, c, bi in base:
+        op, L, R = as_cmp(e)
+        nc = canon_cmp(NEG[op], L, R)
+        if nc not in have:
+            out.append((("not", e), nc, bi))
+    return out
+
+
+def atom_forms(e):
+    """[(expr, canon)] for a comparison expression and for its negation (('not', e), canon of the negated test)"""
+    cm = as_cmp(e)
+    if not cm:
+        return []
+    op, L, R = cm
+    return [(e, canon_cmp(op, L, R)), (("not", e), canon_cmp(NEG[op], L, R))]
+
+
+def pick_atoms(body, want):
+    """comparisons of `body` as (expr, canon, bb), each in the polarity (as spelled, or negated: ('not', e)) whose canonical form satisfies
+    `want(canon)`; comparisons for which neither polarity does are returned as spelled"""
+    out = []
+    for e, c, bi in _cmp_atoms(body):
+        pick = (e, c)
+        for x, cx in atom_forms(e):
+            if want(cx):
+                pick = (x, cx)
+                break
+        out.append((pick[0], pick[1], bi))
+    return out
+
+
+def _cmp_atoms(body):
     out = []
     seen = set()
     for bi, si, s in body.iter_stmts():
@@ -793,8 +838,14 @@ def all_call_exprs(body):
 
 
 def force(body, table, params=None):
-    """Forcing with a table expr -> value (0/1/V(i))"""
-    return Forcing(body, lambda x: table.get(x), params)
+    """Forcing with a table expr -> value (0/1/V(i)); a key ('not', e) -> v forces e to 1 − v"""
+    t2 = {}
+    for k, v in table.items():
+        if isinstance(k, tuple) and k and k[0] == "not" and v in (0, 1):
+            t2[k[1]] = 1 - v
+        else:
+            t2[k] = v
+    return Forcing(body, lambda x: t2.get(x), params)
 
 
 def err_blocks(body, variant_substr):
